@@ -35,7 +35,9 @@ def run_shard(spec, rec):
         q = gen.query(root="$", nofilter=True)
         doc = D.doc_for(R, q, maxdepth=R.choice([3, 4, 5]), maxwidth=R.choice([3, 4, 5]))
         text = G.render(q, R, feat=rec.features)
-        via = R.choice(["find", "finditer"])
+        via = R.choice(["find", "finditer", "finditer"])
+        if R.random() < 0.25:
+            via = ("reuse", D.doc_for(R, q, maxdepth=3, maxwidth=3))
         try:
             with guard(20):
                 key, want, got = SD.check_case(jp, text, q, doc, rec, via)
